@@ -46,6 +46,39 @@ impl Analysis<A> for ConstFold {
     }
 }
 
+thread_local! {
+    /// names of the rules' explicit slots in this run: empty = `$1`, `$2`, ...; otherwise names of
+    /// the internal form `$f<n>` that coincide with slots the e-graph has already issued to its
+    /// classes (rules written after the e-graph was filled; legitimate names, C17)
+    static RULE_SLOTS: RefCell<HashMap<u32, String>> = RefCell::new(HashMap::new());
+}
+fn rule_slot(x: u32) -> String {
+    RULE_SLOTS.with(|m| m.borrow().get(&x).cloned().unwrap_or_else(|| x.to_string()))
+}
+
+/// choose, for the rules' slots 1..=4, names of slots that classes of `eg` use internally
+fn late_rule_slots(eg: &EGraph<A, ConstFold>, rng_seed: u64) {
+    let mut names: Vec<String> = Vec::new();
+    for id in eg.ids() {
+        for s in eg.slots(id) {
+            let t = s.to_string();
+            if t.starts_with("$f") && !names.contains(&t[1..].to_string()) { names.push(t[1..].to_string()); }
+        }
+    }
+    names.sort();
+    let mut rng = StdRng::seed_from_u64(rng_seed);
+    names.shuffle(&mut rng);
+    // the slots of one-slot classes (variables) first: those classes are what pattern variables
+    // are bound to most often
+    let single: Vec<String> = eg.ids().into_iter().filter(|i| eg.slots(*i).len() == 1).map(|i| eg.slots(i).iter().next().unwrap().to_string()[1..].to_string()).collect();
+    names.sort_by_key(|n| !single.contains(n));
+    // not enough class slots: the names the e-graph will issue next
+    let probe = Slot::fresh().to_string();
+    let mut next: u64 = probe[2..].parse::<u64>().unwrap() + 1;
+    while names.len() < 4 { names.push(format!("f{next}")); next += 1; }
+    RULE_SLOTS.with(|m| { let mut m = m.borrow_mut(); m.clear(); for (i, n) in names.iter().take(4).enumerate() { m.insert(i as u32 + 1, n.clone()); } });
+}
+
 fn pat_text(t: &Term) -> String {
     if t.op.starts_with('?') { return t.op.clone(); }
     if t.op == "subst" {
@@ -53,9 +86,9 @@ fn pat_text(t: &Term) -> String {
     }
     if t.sl.is_empty() && t.ch.is_empty() { return t.op.clone(); }
     let mut s = format!("({}", t.op);
-    for x in &t.sl { s += &format!(" ${x}"); }
+    for x in &t.sl { s += &format!(" ${}", rule_slot(*x)); }
     for c in &t.ch {
-        for x in &c.bd { s += &format!(" ${x}"); }
+        for x in &c.bd { s += &format!(" ${}", rule_slot(*x)); }
         s += " ";
         s += &pat_text(&c.t);
     }
@@ -67,7 +100,7 @@ fn mk_rule(r: &RuleJ) -> Rewrite<A, ConstFold> {
     if r.cond.is_empty() {
         Rewrite::new(&r.name, &l, &rr)
     } else {
-        let slot = Slot::named(&r.cond[0].as_u64().unwrap().to_string());
+        let slot = Slot::named(&rule_slot(r.cond[0].as_u64().unwrap() as u32));
         let var = r.cond[1].as_str().unwrap()[1..].to_string();
         Rewrite::new_if(&r.name, &l, &rr, move |subst: &Subst, _| !subst[&var].slots().contains(&slot))
     }
@@ -191,7 +224,7 @@ fn matches_equal(eg: &EGraph<A, ConstFold>, rules: &[RuleJ]) -> bool {
         let (Ok(lp), Ok(rp)) = (Pattern::<A>::parse(&pat_text(&r.l)), Pattern::<A>::parse(&pat_text(&r.r))) else { continue };
         for sb in ematch_all(eg, &lp) {
             if !r.cond.is_empty() {
-                let slot = Slot::named(&r.cond[0].as_u64().unwrap().to_string());
+                let slot = Slot::named(&rule_slot(r.cond[0].as_u64().unwrap() as u32));
                 let var = r.cond[1].as_str().unwrap()[1..].to_string();
                 if sb[&var].slots().contains(&slot) { continue; }
             }
@@ -245,6 +278,10 @@ fn main() {
         let time_mode = *["far", "far", "far", "zero", "mid"].choose(&mut rng).unwrap();
         let time_limit_ms: u64 = match (kind, time_mode) { (_, "zero") => 0, (_, "mid") => 5_000, ("runner", _) => 60_000, _ => 1_000_000 };
         let hook_sleep = std::time::Duration::from_millis(if time_mode == "far" { 0 } else { 3 });
+        // rules written AFTER the e-graph was filled, their explicit slots named like slots the
+        // classes already use internally
+        let late_rules = rng.gen_bool(0.35);
+        let late_seed: u64 = rng.gen();
         if std::env::var("VERIF_RW_DEBUG").is_ok() && run >= 999999 { eprintln!("run {run}: {kind} {start_txt} {rule_names:?} iter_limit={iter_limit} node_limit={node_limit} ext={extraction_subst}"); }
         let st = start_txt.clone();
         let rules2 = rules.clone();
@@ -254,12 +291,13 @@ fn main() {
             let mut tracked = Vec::new();
             subterms(&start, &mut tracked);
             TRACKED.with(|t| *t.borrow_mut() = tracked.clone());
-            let rws: Vec<Rewrite<A, ConstFold>> = rules2.iter().map(mk_rule).collect();
-            evs.push(json!({"ev":"reset","kind":kind,"iter_limit":iter_limit,"node_limit":node_limit,"time_limit_ms":time_limit_ms,"start":st,"rules":rules2.iter().map(|r| r.name.clone()).collect::<Vec<_>>(),
+            let mut rws: Vec<Rewrite<A, ConstFold>> = if late_rules { Vec::new() } else { rules2.iter().map(mk_rule).collect() };
+            evs.push(json!({"ev":"reset","late_rules":late_rules,"kind":kind,"iter_limit":iter_limit,"node_limit":node_limit,"time_limit_ms":time_limit_ms,"start":st,"rules":rules2.iter().map(|r| r.name.clone()).collect::<Vec<_>>(),
                             "subst": if extraction_subst {"extraction"} else {"synexpr"}}));
             let mut eg: EGraph<A, ConstFold> = if extraction_subst { EGraph::with_subst_method::<ExtractionSubst>(ConstFold) } else { EGraph::new(ConstFold) };
             if kind == "manual" {
                 let root = eg.add_expr(start.clone());
+                if late_rules { late_rule_slots(&eg, late_seed); rws = rules2.iter().map(mk_rule).collect(); }
                 for _ in 0..=iter_limit {
                     let before = fingerprint(&eg, &tracked);
                     let ret = apply_rewrites(&mut eg, &rws);
@@ -272,6 +310,7 @@ fn main() {
                 let mut runner: Runner<A, ConstFold, IterFp, String> = Runner::new(ConstFold).with_egraph(eg).with_expr(&start)
                     .with_iter_limit(iter_limit).with_node_limit(node_limit);
                 if time_mode != "far" { runner = runner.with_time_limit(std::time::Duration::from_millis(time_limit_ms)); }
+                if late_rules { late_rule_slots(&runner.egraph, late_seed); rws = rules2.iter().map(mk_rule).collect(); }
                 // the hook fails at the chosen iteration, and also when the e-graph explodes
                 // (a run-away saturation would otherwise make the recorder itself unbounded)
                 let hook_log: Rc<RefCell<Vec<(bool, Instant, Instant)>>> = Rc::new(RefCell::new(Vec::new()));
@@ -312,6 +351,7 @@ fn main() {
                 if runner.egraph.total_number_of_nodes() <= 200 { dump_events(&runner.egraph, &start, &root, &mut evs); }
             } else {
                 let root = eg.add_expr(start.clone());
+                if late_rules { late_rule_slots(&eg, late_seed); rws = rules2.iter().map(mk_rule).collect(); }
                 let log: Rc<RefCell<Vec<(usize, Vec<usize>, bool, Instant, Instant)>>> = Rc::new(RefCell::new(Vec::new()));
                 let log2 = log.clone();
                 let tr = tracked.clone();
